@@ -284,6 +284,11 @@ def _fnum(n):
     return F(n[1])
 
 
+# ILL[0]: trees with float constants are being compared up to rounding: points where a rounding error decides a discontinuous
+# operation (sign at 0, integrality for a factorial, a divisor that is 0 up to rounding) are skipped
+ILL = [False]
+
+
 def eval_exact(t, env, stats=None):
     """Exact value over Q of the mathematical expression (den of DESIGN 3.5 restricted to rational
     results). env: code point -> Fraction. Raises Undefined (division by zero, 0^negative, negative base
@@ -299,9 +304,13 @@ def eval_exact(t, env, stats=None):
         v = -eval_exact(t[1], env, stats)
     elif k == "sgn":
         c = eval_exact(t[1], env, stats)
+        if ILL[0] and abs(c) <= F(1, 10 ** 9) * max(1, stats[0] if stats else 0):
+            raise Irrational()   # a float rounding error decides the sign here: nothing to compare
         v = F((c > 0) - (c < 0))
     elif k == "fact":
         c = eval_exact(t[1], env, stats)
+        if ILL[0] and c.denominator != 1 and abs(c - round(c)) <= F(1, 10 ** 9) * max(1, abs(c)):
+            raise Irrational()   # a float rounding error decides whether this is an integer
         if c.denominator != 1 or c < 0 or c > 200:
             raise Undefined()
         v = F(math.factorial(int(c)))
@@ -317,6 +326,8 @@ def eval_exact(t, env, stats=None):
         elif k == "div":
             if b == 0:
                 raise Undefined()
+            if ILL[0] and abs(b) <= F(1, 10 ** 12) * max(1, stats[0] if stats else 0):
+                raise Irrational()   # a divisor that is zero up to float rounding
             v = a / b
         elif k == "eq":
             if a != b:
@@ -399,13 +410,14 @@ def compare_values(t1, t2, envs, mode="refines"):
 
 
 def equation_holds(t, env, exact=False):
-    """holds for an equation tree (eq l r) whose sides are both defined: l = r exactly (exact=True), or up to rounding
-    relative to the sides' magnitudes (no absolute floor)."""
-    a = eval_exact(t[1], env)
-    b = eval_exact(t[2], env)
+    """holds for an equation tree (eq l r) whose sides are both defined: l = r exactly (exact=True), or up to rounding relative to
+    the largest magnitude met while evaluating the two sides (used only after the exact truth values of two equations differ)."""
+    st = [F(0)]
+    a = eval_exact(t[1], env, st)
+    b = eval_exact(t[2], env, st)
     if exact:
         return a == b
-    return abs(a - b) <= F(1, 10 ** 9) * max(abs(a), abs(b))
+    return abs(a - b) <= F(1, 10 ** 9) * max(abs(a), abs(b), st[0])
 
 
 # ----------------------------------------------------------------------------- generators
